@@ -376,6 +376,9 @@ func init() {
 			c.Rule = "three harnesses on the real UConn under the controlled scheduler (sync, sync/atomic, channel, go and select of package tls redirected; conn Read/Write/Close and context cancellation are scheduling points; the standard library's crypto/tls server is the peer, run to quiescence; its output is delivered chunk by chunk by a scheduled network thread), clients {HelloGolang, HelloChrome_Auto, HelloChrome_58}: (A) HandshakeContext(ctx1) || {Handshake(), HandshakeContext(ctx2)+cancel2, -} || cancel1; (B) after an un-branched handshake Read || Write || {Close, CloseWrite, -}; (C) Write || Handshake || {Close, Read}. All schedules with <= 1 (2) preemptions and <= 1 (2) free switches, pruned by a happens-before state key. Oracle: no deadlock/livelock, no panic, every caller returns the shared outcome (nil iff HandshakeComplete) or its own context error with the connection closed, callers agree, late cancellation is inert (epilogue round trip), data read is a prefix of what was written, Write after Close fails. distinct = outcome class"
 			c.Assumptions = []string{"scheduling points are the hooked synchronisation operations; unsynchronised accesses are only seen by the separate free-running -race pass", "the peer runs atomically between client writes (finer peer timing is represented by chunked delivery only)", "preemption-bounded: no violation with <= k preemptions is the claim"}
 			runAll(c, c26Scenarios(thorough), 0)
+			if c.ShardN == 0 {
+				shimConformance(c) // the scheduler's model of the Go primitives vs the real ones (gate)
+			}
 			attachRacePass(c)
 		}})
 }
